@@ -718,31 +718,55 @@ func (c *Ctx) redisClassEdges(r *redisRoles, r1, r2 string) {
 	// error mapping: the nil reply maps to ErrNotExist, nil stays nil, everything else passes through
 	{
 		fn := r.mapErr
-		okNil, okNotExist, okPass := false, false, false
-		for _, ret := range ir.Returns(fn) {
-			v := ir.Resolve(ret.Results[0])
+		// the nil reply is recognised by its text ("redis: nil" literally, or redis.Nil.Error()), by errors.Is(err,
+		// redis.Nil) or by comparison with redis.Nil
+		isNilReply := func(v ssa.Value) bool {
+			v = ir.Resolve(v)
+			if cv := ir.ConstVal(v); cv != nil && cv.Kind() == constant.String && constant.StringVal(cv) == "redis: nil" {
+				return true
+			}
+			if call, ok := v.(*ssa.Call); ok {
+				// redis.Nil.Error()
+				for _, a := range call.Call.Args {
+					if cv := ir.ConstVal(ir.Resolve(a)); cv != nil && cv.Kind() == constant.String && constant.StringVal(cv) == "redis: nil" {
+						return true
+					}
+				}
+				if call.Call.IsInvoke() {
+					if cv := ir.ConstVal(ir.Resolve(call.Call.Value)); cv != nil && cv.Kind() == constant.String && constant.StringVal(cv) == "redis: nil" {
+						return true
+					}
+				}
+			}
+			return false
+		}
+		nilReplyFact := func(f ir.Fact) bool {
+			if cm, ok := f.Cmp(); ok && cm.Op == token.EQL && (isNilReply(cm.X) || isNilReply(cm.Y)) {
+				return true
+			}
+			ff := f.StripNot()
+			if call, ok := ff.Cond.(*ssa.Call); ok && ff.True && strings.HasSuffix(ir.CalleeFullName(call), "errors.Is") && len(call.Call.Args) == 2 && isNilReply(call.Call.Args[1]) {
+				return true
+			}
+			return false
+		}
+		okNotExist, okOthers := false, true
+		for _, e := range ir.ExitPoints(fn) {
+			v := ir.Resolve(e.Result(0))
 			switch {
-			case ir.IsNilConst(v):
-				okNil = true
+			case ir.IsNilConst(v), v == ssa.Value(fn.Params[0]):
+				// nil stays nil, any other error passes through
 			case sentinel(v) == "ErrNotExist":
-				// guarded by the test for redis.Nil ("redis: nil")
-				okNotExist = ir.HasFact(ret.Block(), func(f ir.Fact) bool {
-					cm, ok := f.Cmp()
-					if !ok || cm.Op != token.EQL {
-						return false
-					}
-					for _, side := range []ssa.Value{cm.X, cm.Y} {
-						if cv := ir.ConstVal(ir.Resolve(side)); cv != nil && cv.Kind() == constant.String && constant.StringVal(cv) == "redis: nil" {
-							return true
-						}
-					}
-					return false
-				})
-			case v == ssa.Value(fn.Params[0]):
-				okPass = true
+				if e.HasFact(nilReplyFact) {
+					okNotExist = true
+				} else {
+					okOthers = false
+				}
+			default:
+				okOthers = false
 			}
 		}
-		c.Decide(r1, fn, "missing key reply -> ErrNotExist", nil, okNil && okNotExist && okPass, "the redis error mapping does not turn the nil reply into ErrNotExist (and pass other errors through)")
+		c.Decide(r1, fn, "missing key reply -> ErrNotExist", nil, okNotExist && okOthers, "the redis error mapping does not turn the nil reply (and only it) into ErrNotExist and pass everything else through")
 	}
 	viaMap := func(fn *ssa.Function, cmd string) bool {
 		ok := false
